@@ -63,6 +63,26 @@ CLAIMED = {
             "self-connection never re-dialled for any clock; write_peers atomic under a crash before any file operation, <= limit rows, newest first.",
             "Sockets/selector replaced by a recording shell; failure count concrete where the code formats it into a log line; crash analysis with "
             "PEERS_JSON_MAX_LEN=5 (code is parametric), the real limit 100 without crash.", "DESIGN.md 4/C19"),
+    "C13": ("CrossHair symbolic execution of ChainManager pool operations on a node shell (one step from an invariant pool state)",
+            "Solver verdict per step: a symbolic submission (reference pool x free index x signature kind x value) is admitted only if valid at "
+            "the head and disjoint from the pool, otherwise the pool is untouched; after each kind of head change (extension mining a member / a "
+            "conflicting spend, switch to and from a sibling fork with a reward-only tip) the pool is exactly the members valid at the new head; "
+            "a head change arriving while a submission is validated (modelled synchronously at the validation point when the lock is free) leaves "
+            "no invalid member; relay only of new admitted transactions.",
+            "Node shell; stubs as C01; pool <= 2-4 members; real thread schedules beyond the one modelled interleaving point are outside.", "DESIGN.md 4/C13"),
+    "C12": ("CrossHair symbolic execution of MinerWatcher.handle_request_scrypt_input_message / handle_scrypt_output_message on a node shell",
+            "Solver verdict over symbolic clocks (assembly and discovery), nonce, parent timestamp and pool fees (0..2 pending transactions) at "
+            "ordinary, retarget-boundary and halving heights: the found block passes the node's own add_block, pays exactly subsidy + fees to the "
+            "miner's key, is later than its parent, and is adopted (served state, store calls, broadcast - nothing leaves before validation). "
+            "Known finding F5 (clock >= 30 s behind the head) is reported as KNOWN-FINDING and excluded by an added assumption.",
+            "MinerWatcher shell without processes/queues; stubs as C01 with LRO ids; elapsed time >= 40000 s at boundaries; competing blocks between "
+            "assembly and discovery (threads) outside.", "DESIGN.md 4/C12"),
+    "C06": ("CrossHair symbolic execution of Block.deserialize + CoinState.add_block on a valid block's encoding with one byte symbolic (every position) and on every prefix",
+            "Solver verdict for every byte position of two valid block encodings (reward only; reward + spend): with the byte replaced by any other "
+            "value (covers all 8 single-bit flips) the bytes fail to decode or full validation rejects them; every proper prefix likewise. The "
+            "adversary gets proof of work for free, so rejection comes from the commitments.",
+            "Lazy-table hash oracles (collision-free on the run), ideal signatures, chain-sample oracle; single-byte alterations of two block shapes.",
+            "DESIGN.md 4/C06"),
 }
 
 NOT_YET = "not claimed yet in this revision of /verif: the check is still being built (see DESIGN.md section 4 for the planned decision procedure)"
